@@ -40,7 +40,7 @@ func genNamedCase(t *rapid.T, o namedOpts) *StructCase {
 	depth := rapid.IntRange(1, o.maxDepth).Draw(t, "depth")
 	shapes := o.topShapes
 	if len(shapes) == 0 {
-		shapes = []string{"ptr", "ptr", "ptr", "val", "ptrptr", "slice", "sliceptr", "array", "mapstr", "mapint"}
+		shapes = []string{"ptr", "ptr", "ptr", "val", "ptrptr", "slice", "sliceptr", "array", "mapstr", "mapint", "ptrslice", "ptrmap", "arrayval"}
 	}
 	one := func() desc.V { return genValueRT(t, rt, 0, depth) }
 	many := func(ptr bool) []desc.V {
@@ -66,6 +66,17 @@ func genNamedCase(t *rapid.T, o namedOpts) *StructCase {
 		c.Root, c.Val = desc.Ptr(elem), desc.V{E: []desc.V{one()}}
 	case "ptrptr":
 		c.Root, c.Val = desc.Ptr(desc.Ptr(elem)), desc.V{E: []desc.V{{E: []desc.V{one()}}}}
+	case "ptrslice": // pointer to a slice of structs
+		c.Root, c.Val = desc.Ptr(desc.Slice(elem)), desc.V{E: []desc.V{{E: many(false)}}}
+	case "ptrmap": // pointer to a map of struct pointers
+		es := many(true)
+		v := desc.V{E: es}
+		for i := range es {
+			v.K = append(v.K, desc.Str(string(rune('p'+i))))
+		}
+		c.Root, c.Val = desc.Ptr(desc.Map(desc.Scalar("string"), desc.Ptr(elem))), desc.V{E: []desc.V{v}}
+	case "arrayval": // array of struct values
+		c.Root, c.Val = desc.Array(3, elem), desc.V{E: []desc.V{one(), zeroDesc(rt), one()}}
 	case "slice":
 		c.Root, c.Val = desc.Slice(elem), desc.V{E: many(false)}
 	case "sliceptr":
